@@ -263,6 +263,7 @@ def check(P, rep):
                                (c_[0] == 'cmp' and c_[1] == 'le' and core(c_[2]) == ('seq',) and core(c_[3]) == exp))
         refuse = guard_sel(g, lambda c_: c_[0] == 'cmp' and c_[1] == 'lt' and core(c_[2]) == exp and core(c_[3]) == ('seq',))
         rep.floor('approve expiry precondition (expiration < sequence)', len(refuse), 1)
+        pos = guard_sel(g, lambda c_: c_[0] == 'cmp' and c_[1] == 'lt' and const_int(core(c_[2])) == 0 and core(c_[3]) == amount)
         for e in aw:
             f = fields_of(core(e.val)) or {}
             rep.check(allow_key(e.key) == (frm, spn) and core(f.get('amount', ('u',))) == amount and core(f.get('expiration_ledger', ('u',))) == exp,
@@ -270,9 +271,20 @@ def check(P, rep):
             ok, _, w = mg(g, [e.node], (), edges(pass_edges)) if pass_edges else (False, None, None)
             rep.check(ok, 'C12.R5', 'approve:expiry-precondition', 'the write is must-guarded by amount <= 0 OR sequence <= expiration', esite(g, e), None, w)
             rep.check(g.success_needs([e.node]), 'C12.R4', 'approve:write-on-success', 'every success exit is preceded by the allowance write', esite(g, e))
+        # refused ONLY then: the refusal (the trap behind the expiry test) is reachable only with amount > 0, so approve(0, past ledger)
+        # - the standard way to revoke an allowance - is not refused
+        for gd in refuse:
+            traps = set()
+            for sid in g.states_after_edges([gd.edge]):
+                cid_, bb_, _ = g.states[sid]
+                t_ = g.ctxs[cid_].body['blocks'][bb_]['term']
+                if t_['t'] == 'call' and t_['to'] < 0:
+                    traps.add((cid_, bb_))
+            okp = bool(traps) and bool(pos) and g.must_guard(list(traps), (), edges(pos))[0]
+            rep.check(okp, 'C12.R5', 'approve:refused-only-if-positive', 'the expiry refusal is reachable only with amount > 0 (revoking with amount 0 and a past '
+                      'expiration stays possible)', site(g, gd.ctx, gd.bb))
         # refused exactly then: the refusing edge leads to no success exit
         oks = set(g.ok_exit_sids())
-        pos = guard_sel(g, lambda c_: c_[0] == 'cmp' and c_[1] == 'lt' and const_int(core(c_[2])) == 0 and core(c_[3]) == amount)
         for gd in refuse:
             after = g.states_after_edges([gd.edge])
             rep.check(not (after & oks), 'C12.R5', 'approve:expired-refused', 'amount > 0 with expiration < sequence cannot succeed', site(g, gd.ctx, gd.bb))
@@ -303,6 +315,7 @@ def check(P, rep):
                 rep.check(bal_of(rt, g.P(1)), 'C12.R3', 'balance:result-term', 'balance() returns the stored balance of id or 0', entry_id(g), fmt(rt)[:200])
         rep.check(not state_effects(g), 'C12.R3', 'balance:pure', 'balance() changes nothing', entry_id(g))
     storage_classes(P, rep, 'C12.R3', CN, {'Balance': 'persistent', 'Allowance': 'temporary', 'Minter': 'instance'})
+    require_overflow_checks(P, rep, 'C12.R2')
     # R3 who-may-write over all entries
     for cn, en in P.all_entries():
         if cn != CN:
